@@ -84,6 +84,7 @@ class Ctx:
         self.samples = []
         self.violations = []     # confirmed, unknown
         self.known_hits = []     # (key, text)
+        self.unreproduced = []
         self.notes = []
         self.assumptions = []
         self.counters = {}
@@ -282,7 +283,7 @@ class Ctx:
         if postprocess:
             res["violations"] = postprocess(res.get("violations", []))
         if confirm:
-            self.handle_violations(res.get("violations", []))
+            self.handle_violations(res.get("violations", []), context=cases)
         return res
 
     # ------------------------------------------------------- trace direction
@@ -307,6 +308,7 @@ class Ctx:
         total = 0
         part = 0
         found = {}
+        histories = {}
         while total < n and len(found) < max_findings:
             part += 1
             m = min(chunk, n - total)
@@ -336,9 +338,28 @@ class Ctx:
                 single = os.path.join(self.scratch, "%s-single.ndjson" % recorder)
                 self.run_harness(["record", recorder, "--from", cur, "--line", str(pos), "--out", single])
                 again = self.validate_trace(module, single, invariants)
+                hist = None
+                if not again:
+                    # the recorder is sequential: the real code may have kept state from the events
+                    # recorded before this one.  Re-record a window of preceding events in order.
+                    for k in (1, 4, 32, 256):
+                        first = max(1, pos - k)
+                        r = self.run_harness(["record", recorder, "--from", cur, "--line", str(pos), "--first", str(first), "--out", single])
+                        if r.returncode != 0:
+                            break
+                        got = self.validate_trace(module, single, invariants)
+                        if got and got[1] >= 1:
+                            wl = open(single).read().splitlines()
+                            if wl and json.loads(wl[got[1] - 1]) == json.loads(ev):
+                                again, hist = got, [json.loads(x) for x in lines[start + first - 1:start + pos]]
+                                break
+                        if first == 1:
+                            break
                 if not again:
                     raise Infra("rejected trace event not reproduced in a fresh process: " + ev[:500])
                 key = "%s/%s" % (key_prefix, again[0])
+                if hist is not None:
+                    histories[key] = hist
                 found.setdefault(key, ev)
                 start += pos  # continue after the rejected line
         known = load_known(self.prop)
@@ -348,26 +369,37 @@ class Ctx:
             else:
                 self.violations.append(Violation(key, "recorded event violates %s: %s" % (key.split("/")[-1], ev[:700]),
                                                  {"op": "trace", "recorder": recorder, "module": module,
-                                                  "invariants": list(invariants), "event": json.loads(ev)}))
+                                                  "invariants": list(invariants), "event": json.loads(ev),
+                                                  "history": histories.get(key)}))
 
     def replay_trace_case(self, case):
         """Re-record the single logged input of a trace-direction violation and validate it again."""
         src = os.path.join(self.scratch, "replay-src.ndjson")
+        evs = case.get("history") or [case["event"]]
         with open(src, "w") as f:
-            f.write(json.dumps(case["event"]) + "\n")
+            for e in evs:
+                f.write(json.dumps(e) + "\n")
         single = os.path.join(self.scratch, "replay-single.ndjson")
-        self.run_harness(["record", case["recorder"], "--from", src, "--line", "1", "--out", single])
+        args = ["record", case["recorder"], "--from", src, "--line", str(len(evs)), "--out", single]
+        if len(evs) > 1:
+            args += ["--first", "1"]
+        self.run_harness(args)
         return self.validate_trace(case["module"], single, case["invariants"])
 
     # ------------------------------------------------------ violation handling
-    def handle_violations(self, viols, limit=25):
+    def handle_violations(self, viols, limit=25, context=None):
         """viols: list of {key, detail, case}.  De-duplicate by key, confirm each in a
-        fresh process, then classify as known finding or new violation."""
+        fresh process, then classify as known finding or new violation.  A violation that does
+        not reproduce alone is retried together with the cases that preceded it (context): the
+        real code may keep state between calls, and a wrong answer that depends on the calls
+        made before it is still a wrong answer of the real code."""
         seen = {}
         for v in viols:
             seen.setdefault(v["key"], v)
         known = load_known(self.prop)
         n = 0
+        confirmed = 0
+        unreproduced = []
         for key, v in seen.items():
             if any(x.key == key for x in self.violations) or any(k == key for k, _ in self.known_hits):
                 continue
@@ -376,12 +408,20 @@ class Ctx:
                 self.notes.append("more than %d distinct violation keys; remaining not confirmed" % limit)
                 break
             ok = self.confirm(v)
+            if not ok and context:
+                ok = self.confirm_with_history(v, context)
             if not ok:
-                raise Infra("violation %s not reproduced in a fresh process: %s" % (key, v.get("detail")))
+                unreproduced.append("violation %s not reproduced in a fresh process: %s" % (key, v.get("detail")))
+                continue
+            confirmed += 1
             if key in known:
                 self.known_hits.append((key, known[key]))
             else:
                 self.violations.append(Violation(key, v.get("detail", ""), v.get("case")))
+        # an answer that cannot be reproduced is never reported as a violation.  If other keys of
+        # the same run are confirmed the run has its verdict from those; otherwise it has none
+        # (decided in finish()).
+        self.unreproduced.extend(unreproduced)
 
     def confirm(self, v):
         case = v.get("case")
@@ -398,9 +438,60 @@ class Ctx:
         want = v.get("orig_key", v["key"])
         return any(x["key"] == want for x in res.get("violations", []))
 
+    def _replay_sequential(self, name, seq, timeout=900):
+        path = self.write_cases(name, seq)
+        out = path + ".result.json"
+        p = self.run_harness(["replay", "--in", path, "--out", out, "--jobs", "1"], timeout=timeout)
+        if p.returncode != 0 or not os.path.exists(out):
+            return []
+        return json.load(open(out)).get("violations", [])
+
+    def confirm_with_history(self, v, context):
+        """Replay windows of the cases that precede the failing one, in file order, in one
+        goroutine of a fresh process; accept the first window that reproduces the violation
+        twice.  The replay artefact is then the whole window (op "sequence")."""
+        want = v.get("orig_key", v["key"])
+        tag = hashlib.sha1(v["key"].encode()).hexdigest()[:10]
+        try:
+            idx = context.index(v.get("case"))
+        except ValueError:
+            idx = None
+        windows = []
+        if idx is not None:
+            for k in (1, 2, 4, 8, 32, 128, 1024):
+                lo = max(0, idx - k)
+                windows.append(context[lo:idx + 1])
+                if lo == 0:
+                    break
+        if len(context) <= 200000:
+            windows.append(list(context))
+        for i, seq in enumerate(windows):
+            hit = [x for x in self._replay_sequential("confirm-%s-h%d.ndjson" % (tag, i), seq) if x["key"] == want]
+            if not hit:
+                continue
+            again = [x for x in self._replay_sequential("confirm-%s-h%d-again.ndjson" % (tag, i), seq) if x["key"] == want]
+            if not again:
+                continue
+            if len(seq) > 200:
+                # the whole file: prefer a case of it that fails on its own
+                for x in hit[:5]:
+                    if self.confirm({"key": v["key"], "orig_key": want, "case": x.get("case")}):
+                        v["case"], v["detail"] = x.get("case"), x.get("detail", "")
+                        return True
+            v["case"] = {"op": "sequence", "cases": seq,
+                         "note": "the answer depends on the calls made before it: replay the cases in order in one goroutine"}
+            v["detail"] = (v.get("detail", "") + " [reproduced only after the %d preceding case(s): state is kept between calls]" % (len(seq) - 1))
+            return True
+        return False
+
     # ---------------------------------------------------------------- finish
     def finish(self, level="model_checking"):
         wall = time.time() - self.t0
+        if self.unreproduced:
+            if not self.violations:
+                raise Infra(self.unreproduced[0])
+            for u in self.unreproduced[:5]:
+                self.notes.append(u[:400])
         os.makedirs(EVID, exist_ok=True)
         replay_dir = os.path.join(EVID, "replay", self.prop)
         if os.environ.get("VERIF_NO_EVIDENCE"):
